@@ -49,13 +49,15 @@ func sameMultiset(a, b []int) bool {
 
 func clone(s []int) []int { return append([]int(nil), s...) }
 
-// mkDst: 0 = nil, 1 = fresh with spare capacity, 2 = the prefix s[:0] of the first input
-func mkDst(kind int, s []int) []int {
+// mkDst: 0 = nil, 1 = fresh with spare capacity, 2 = the prefix s[:0] of the first input, 3 = of the second
+func mkDst(kind int, s []int, s2 ...[]int) []int {
 	switch kind {
 	case 1:
 		return make([]int, 1, 8)
 	case 2:
 		return s[:0]
+	case 3:
+		return s2[0][:0]
 	}
 	return nil
 }
@@ -88,8 +90,8 @@ func SetOps() {
 	}
 	switch op {
 	case 0, 1:
-		kind := vx.Choose(3)
-		dst := mkDst(kind, s1)
+		kind := vx.Choose(4)
+		dst := mkDst(kind, s1, s2)
 		var got []int
 		if op == 0 {
 			got = slicez.Diff(dst, s1, s2)
@@ -100,7 +102,9 @@ func SetOps() {
 		if kind != 2 {
 			vx.Assert(vx.EqInts(s1, o1), "Diff/Intersect with a separate dst leave the first slice unchanged")
 		}
-		vx.Assert(vx.EqInts(s2, o2), "Diff/Intersect leave the second slice unchanged")
+		if kind != 3 {
+			vx.Assert(vx.EqInts(s2, o2), "Diff/Intersect leave the second slice unchanged")
+		}
 		vx.Observe("got", len(got))
 	case 2, 3:
 		var got []int
